@@ -85,6 +85,13 @@ def rnd_fact(x, mode):
                       round_rel(x, mode, rnd(x, mode)))
 
 
+def rnd_int_fact(k, mode):
+    """ground instance of lemma round_rel/integers-fixed: an integer is
+    rounded to itself in every mode"""
+    return z3.Implies(z3.And(mode >= 0, mode < 8),
+                      rnd(z3.ToReal(k), mode) == k)
+
+
 # powers of ten -----------------------------------------------------------
 p10 = z3.Function("p10", z3.IntSort(), z3.RealSort())
 
